@@ -300,6 +300,71 @@ fn check_same_shape(ctors: &[usize], l1: &'static str, l2: &'static str, lang: L
     acc.outcomes.insert(report::fnv64(&format!("{}|{}", lang.name(), st.fields.len())));
 }
 
+
+// ---------- family: generic parameters are declared in the Rust order ----------
+
+const GP_ANNOTATIONS: [&str; 5] = ["", "swiftGenericConstraints = \"B: Equatable\"", "swiftGenericConstraints = \"B: Equatable, A: Hashable\"", "swiftGenericConstraints = \"A: Hashable\"", "swift = \"Equatable\", swiftGenericConstraints = \"B: Hashable & Comparable\""];
+const GP_KINDS: [&str; 3] = ["struct", "tagged-enum", "enum-with-struct-variant"];
+
+fn check_generic_order(kind: &'static str, ann: usize, lang: Lang, prefixed: bool, choices: &[u32], acc: &mut Acc) {
+    let (a, b) = (Ty::Param("A".into()), Ty::Param("B".into()));
+    let mut subject = match kind {
+        "struct" => Item::strukt("Pair", vec![Field::new("second", Ty::Vec(Box::new(b.clone()))), Field::new("first", a.clone())]),
+        "tagged-enum" => Item::enumm("Pair", vec![Variant::new("Right", VKind::Newtype(b.clone())), Variant::new("Left", VKind::Newtype(a.clone())), Variant::new("Neither", VKind::Unit)]),
+        _ => Item::enumm("Pair", vec![Variant::new("Both", VKind::Struct(vec![Field::new("second", b.clone()), Field::new("first", Ty::Option(Box::new(a.clone())))])), Variant::new("Neither", VKind::Unit)]),
+    };
+    subject.generics = vec!["A".into(), "B".into()];
+    if !GP_ANNOTATIONS[ann].is_empty() {
+        subject.ts_args.push(GP_ANNOTATIONS[ann].to_string());
+    }
+    let user = Item::strukt("Uses", vec![Field::new("p", Ty::Generic("Pair".into(), vec![Ty::Prim("String"), Ty::Prim("u32")]))]);
+    let file = File::single(vec![subject, user]);
+    let cfg = if prefixed { Cfg::prefixed() } else { Cfg::plain() };
+    acc.runs += 1;
+    let ok = match refmodel::run_single(&file, lang, &cfg) {
+        Ok(ok) => ok,
+        Err((fail, source)) => {
+            match &fail {
+                RunFail::Render(e) => acc.machinery(format!("renderer produced invalid Rust: {e}\n{source}")),
+                RunFail::Extract { .. } => acc.out_of_scope += 1,
+                _ => acc.vios.add(Violation { sig: format!("C05|{}|generic-order|no-output:{}|kind={kind}", lang.name(), fail.class()), detail: json!({"choices": choices, "source": source, "failure": fail.describe()}) }),
+            }
+            return;
+        }
+    };
+    acc.inputs.insert(report::fnv64(&ok.source));
+    acc.nontrivial.insert(report::fnv64(&format!("{}|{}|{prefixed}", ok.source, lang.name())));
+    let name = refmodel::prefixed(lang, &cfg, "Pair");
+    let declared: Option<Vec<String>> = ok.out.defs.iter().find(|d| d.name() == name).map(|d| match d {
+        Def::Struct(s) => s.generics.clone(),
+        Def::Enum(e) => e.generics.clone(),
+        Def::Alias(a) => a.generics.clone(),
+        Def::Const(_) => vec![],
+    });
+    acc.judgements += 1;
+    let detail = |what: String| json!({"choices": choices, "lang": lang.name(), "kind": kind, "annotation": GP_ANNOTATIONS[ann], "source": ok.source, "output": ok.text, "observation": what});
+    match declared {
+        Some(g) if g == ["A", "B"] => {}
+        // Go and Python print generic enums without a parameter list on the enum itself
+        Some(g) if g.is_empty() && matches!(lang, Lang::Go | Lang::Python | Lang::TypeScript) && kind != "struct" => {}
+        Some(g) => acc.vios.add(Violation { sig: format!("C05|{}|generic-order|declared={}|kind={kind}|annotated={}", lang.name(), g.join(","), (ann != 0) as u8), detail: detail(format!("declared parameter list {g:?}, Rust declares [A, B]")) }),
+        None => acc.vios.add(Violation { sig: format!("C05|{}|generic-order|definition-not-found|kind={kind}", lang.name()), detail: detail("Pair not found".into()) }),
+    }
+    // the use site passes (String, u32) in this order
+    if let Some(u) = ok.out.structs().find(|s| s.name == refmodel::prefixed(lang, &cfg, "Uses")) {
+        if let Some(TT::Name(_, args)) = u.fields.first().map(|f| &f.ty) {
+            acc.judgements += 1;
+            if args.len() == 2 {
+                let first_is_string = typemodel::matches(lang, &typemodel::Exp::Prim("String"), &args[0], &ok.out, true).is_ok();
+                if !first_is_string {
+                    acc.vios.add(Violation { sig: format!("C05|{}|generic-order|arguments-permuted|kind={kind}", lang.name()), detail: detail(format!("use site passes {:?}", args.iter().map(|a| a.show()).collect::<Vec<_>>())) });
+                }
+            }
+        }
+    }
+    acc.outcomes.insert(report::fnv64(&format!("{}|{kind}", lang.name())));
+}
+
 fn controls(rep: &mut Report) {
     use typemodel::Exp;
     let of = OutFile::default();
@@ -429,6 +494,26 @@ pub fn run(args: &[String]) -> i32 {
             u64::MAX,
         );
         merge(&mut rep, "const_types", accs, &stats, json!({"leaves": 14, "languages": ["typescript", "go", "python"]}));
+    }
+    // 3b. generic parameters are declared, and arguments passed, in the Rust order - with and without per-parameter annotations
+    {
+        let (accs, stats) = explore(
+            |ch| {
+                ch.choose("kind", GP_KINDS.len());
+            },
+            |ch, acc: &mut Acc| {
+                let kind = *ch.pick("kind", &GP_KINDS);
+                let ann = ch.choose("annotation", GP_ANNOTATIONS.len());
+                let lang = *ch.pick("lang", &ALL_LANGS);
+                let prefixed = ch.flag("cfg");
+                check_generic_order(kind, ann, lang, prefixed, &ch.choices(), acc);
+            },
+            Mode::Product,
+            1,
+            report::threads(),
+            u64::MAX,
+        );
+        merge(&mut rep, "generic_parameter_order", accs, &stats, json!({"kinds": GP_KINDS, "annotations": GP_ANNOTATIONS, "languages": 6, "configs": 2, "fields_mention_parameters": "in the reverse of the declared order"}));
     }
     // 4. two expressions of the same shape in one program (state carried from one translation to the next)
     {
